@@ -1,5 +1,5 @@
 """C17 — t-digest conserves weight, keeps exact extremes, is monotone (DESIGN.md 3 C17)."""
-import math, struct
+import math, os, struct
 from .. import core
 from ..runner import Spec, Part
 
@@ -41,6 +41,8 @@ def stream(rng, n, allow_nan=True):
     """n finite values (python floats) of one of the stream shapes of the property's quantifier; NaN marked as None."""
     kind = rng.choice(["sorted", "reversed", "random", "gauss", "clustered", "constant", "fewdistinct", "ints",
                        "alternating", "logmix", "ties-at-ends"])
+    if os.environ.get("VERIF_C17_DISTINCT"):      # self-test knob: streams without ties (continuous draws only)
+        kind = rng.choice(["sorted", "reversed", "random", "gauss", "logmix"])
     scale = rng.choice([1.0, 1.0, 100.0, 1e-3, 1e6, 1e-30, 1e30])
     off = rng.choice([0.0, 0.0, -50.0, 1000.0]) * scale
     if kind in ("sorted", "reversed", "random"):
@@ -168,9 +170,14 @@ class TdPart(Part):
         # phase 2: a merge tree over the digests (targets keep absorbing; occasional self-merge and more updates)
         live = list(range(nd))
         steps = rng.randrange(0, 2 * nd + 1) if nd > 1 else rng.choice([0, 0, 1])
+        distinct = bool(os.environ.get("VERIF_C17_DISTINCT"))
         for _ in range(steps):
             a = rng.choice(live)
             b = rng.choice(live)
+            if distinct:                 # no self-merge, every operand merged once (no ties created by merging)
+                if a == b or len(live) < 2:
+                    continue
+                live.remove(b)
             h.append("merge %d %d" % (a, b))
             pools[a] = pools[a] + pools[b]
             if rng.random() < 0.7:
@@ -186,7 +193,7 @@ class TdPart(Part):
         return h
 
     def generate(self, rng, tier):
-        n = 70 if tier == "quick" else 700
+        n = 200 if tier == "quick" else 1500
         return [self.one_history(rng, tier) for _ in range(n)]
 
     # ------------------------------------------------------------------ the property statement on one implementation trace
@@ -409,7 +416,9 @@ class InfPart(TdPart):
 
     def generate(self, rng, tier):
         hs = []
-        for _ in range(25 if tier == "quick" else 250):
+        if os.environ.get("VERIF_C17_DISTINCT"):
+            return hs
+        for _ in range(50 if tier == "quick" else 400):
             ty = Ty(rng.choice(["d", "f"]))
             h = []
             nd = rng.choice([1, 2, 3])
